@@ -42,7 +42,7 @@ CHECKS = {
    "Truncation is modelled as EOF at the cut.",
    "5 C07"),
  "C08": ("model_checking",
-   "exhaustive insertion of unknown events (all singles, all pairs, a triple; every one of the 246 undefined codes; events cut into Message Splitter blocks) at every event boundary of replays with one, two and no Game End; newer-version payload extension per event kind; differential oracle against the same replay without them",
+   "exhaustive insertion of unknown events (all singles, all pairs, a triple; every one of the 246 undefined codes; every payload size 1..=1100 and every multiple of 512 with its neighbours; events cut into Message Splitter blocks) at every event boundary of replays with one, two and no Game End; newer-version payload extension per event kind; differential oracle against the same replay without them",
    "For replays of every framing regime: every placement of 1-3 table-declared unknown events of 5 code/size shapes yields the identical game; versions > 3.16 with +1/+3/+17 trailing bytes on each known event parse to the same known fields.",
    "Four defects found here are repaired (6a9aef4, b6fe70b, 000e677); no open finding.",
    "5 C08"),
@@ -82,19 +82,19 @@ CHECKS = {
    "Sequences longer than the bound not enumerated.",
    "5 C15"),
  "C16": ("model_checking",
-   "exhaustive enumeration of all metadata trees of a bounded grammar including every key order, with independent UBJSON/tar/JSON readers",
+   "exhaustive enumeration of all metadata trees of a bounded grammar including every key order, also behind 601 .. 196,608 bytes of tolerated content after Game End, with independent UBJSON/tar/JSON readers",
    "Tree with key order preserved on read, bytes reproduced on write, metadata.json in .slpp token-identical in order and values, peppi::read gives the same tree; absent metadata => None.",
    "Depth bounded at 128 by the library; grammar bounds stated in the evidence.",
    "5 C16"),
  "C17": ("model_checking",
-   "exhaustive enumeration of tolerated irregularities: all order-preserving permutations of a frame's events x junk after Game End x unknown events x missing end/metadata",
+   "exhaustive enumeration of tolerated irregularities: all order-preserving permutations of a frame's events x junk after Game End x unknown events x missing end/metadata; metadata strings of every length 0..=255",
    "For every accepted input: declared raw length == measured raw element, re-read equal, write is a fixed point.",
    "Rejected inputs are outside the quantifier (count reported; run aborts as vacuous if >10%).",
    "5 C17"),
  "C18": ("model_checking",
    "bounded exhaustive enumeration of archives x compressions, every placement of unknown entries, and all 2^24 format-version triples (thorough) with an independent tar reader/writer",
-   "Signature, entry order, JSON entries equal to reconstructed renderings, raw entries, determinism; unknown entries ignored at every position (singles, pairs); every entry length modulo 512; read Err for every format version < 2.0.0 and Ok from 2.0.0 up to the version the writer stamps.",
-   "Open zones: frames.arrow presence for zero-frame games; format versions later than the one the writer stamps.",
+   "Signature, entry order, JSON entries equal to reconstructed renderings, raw entries, determinism; unknown entries ignored at every position (singles, pairs; names that resemble known entries with other content; sizes up to 4 MiB); every entry length modulo 512; read Err for every format version < 2.0.0 and Ok from 2.0.0 up to the version the writer stamps.",
+   "Open zones: frames.arrow presence for zero-frame games; format versions later than the one the writer stamps; known names below a directory.",
    "5 C18"),
  "C19": ("model_checking",
    "complete enumeration of all 1- and 2-byte sequences at field start and straddling the field end, NUL at every position with garbage, all texts of up to 4 units of different expansion and every run of an expanding unit, and all 1,112,064 Unicode scalars for normalisation",
